@@ -92,6 +92,29 @@ fn virtual_wall() -> DateTime<Utc> {
 #[derive(Debug, Clone, Default, PartialEq)]
 pub struct RecGlobal {
     pub seen: Vec<u64>,
+    /// max over the events this engine processed of (exchange time - wall instant it was processed):
+    /// no timestamp derived from this backtest's own clock can exceed `ahead + now`
+    pub ahead: Option<i64>,
+    /// the account event stamped furthest beyond what this backtest's own data can explain
+    /// (excess in ms, description)
+    pub breach: Option<(i64, String)>,
+}
+
+impl RecGlobal {
+    fn mark(&mut self, t: chrono::DateTime<chrono::Utc>, check: Option<&str>) {
+        let w = ms_of(virtual_wall());
+        let t = ms_of(t);
+        if let (Some(what), Some(ahead)) = (check, self.ahead) {
+            let excess = t - (ahead + w);
+            if excess > 0 && self.breach.as_ref().is_none_or(|(e, _)| excess > *e) {
+                self.breach = Some((
+                    excess,
+                    format!("{what} stamped {t} ms at wall instant {w} ms, but the latest this backtest's own events allow is {} ms", ahead + w),
+                ));
+            }
+        }
+        self.ahead = Some(self.ahead.map_or(t - w, |a| a.max(t - w)));
+    }
 }
 
 impl<'a> Processor<&'a MarketEvent<InstrumentIndex, DataKind>> for RecGlobal {
@@ -100,11 +123,33 @@ impl<'a> Processor<&'a MarketEvent<InstrumentIndex, DataKind>> for RecGlobal {
         if let DataKind::Trade(t) = &e.kind {
             self.seen.push(t.id.parse().unwrap_or(u64::MAX));
         }
+        self.mark(e.time_exchange, None);
     }
 }
 impl<'a> Processor<&'a AccountEvent> for RecGlobal {
     type Audit = ();
-    fn process(&mut self, _: &'a AccountEvent) {}
+    fn process(&mut self, e: &'a AccountEvent) {
+        match &e.kind {
+            AccountEventKind::Trade(t) => self.mark(t.time_exchange, Some("fill")),
+            AccountEventKind::BalanceSnapshot(b) => self.mark(b.0.time_exchange, Some("balance snapshot")),
+            // every other kind that feeds the historical clock (same mapping as TimeExchange)
+            AccountEventKind::Snapshot(s) => {
+                if let Some(t) = s.time_most_recent() {
+                    self.mark(t, None);
+                }
+            }
+            AccountEventKind::OrderSnapshot(o) => {
+                if let Some(t) = o.0.state.time_exchange() {
+                    self.mark(t, Some("order report"));
+                }
+            }
+            AccountEventKind::OrderCancelled(c) => {
+                if let Ok(x) = &c.state {
+                    self.mark(x.time_exchange, Some("cancel confirmation"));
+                }
+            }
+        }
+    }
 }
 
 #[derive(Debug, Clone, PartialEq)]
@@ -175,6 +220,7 @@ type StG = EngineState<RecGlobal, RecData>;
 pub struct RecOut {
     pub calls: u64,
     pub global_seen: Vec<u64>,
+    pub clock_breach: Option<(i64, String)>,
     pub inst_seen: Vec<Vec<u64>>,
     pub fills: Vec<Vec<FillRec>>,
     pub positions: Vec<Option<(bool, Decimal, Decimal)>>,
@@ -206,6 +252,7 @@ impl AlgoStrategy for BtStrategy {
             let mut s = self.sink.lock().unwrap();
             s.calls += 1;
             s.global_seen = state.global.seen.clone();
+            s.clock_breach = state.global.breach.clone();
             s.inst_seen = state.instruments.0.values().map(|i| i.data.seen.clone()).collect();
             s.fills = state.instruments.0.values().map(|i| i.data.fills.clone()).collect();
             s.positions = state
@@ -655,6 +702,29 @@ impl Sim for SimG {
                         "backtest {j} saw {} of {} dataset events; first difference at position {k}: saw {:?}, dataset has {:?}",
                         r.rec.global_seen.len(), n_events, r.rec.global_seen.get(k), expect_ids.get(k)
                     );
+                }
+                // ... also as seen by each instrument's own market-data state
+                let n_inst_g = sc.n_inst.clamp(1, 3);
+                for (i, seen) in r.rec.inst_seen.iter().enumerate() {
+                    let expect_i: Vec<u64> = sc.events.iter().enumerate().filter(|(_, e)| e.0 % n_inst_g == i).map(|(k, _)| k as u64).collect();
+                    if *seen != expect_i {
+                        let k = seen.iter().zip(expect_i.iter()).position(|(a, b)| a != b).unwrap_or(seen.len().min(expect_i.len()));
+                        fail!(
+                            'run,
+                            "G1_dataset_complete_in_order",
+                            j,
+                            "backtest {j}: the market-data state of instrument {i} was fed {} events, the dataset has {} for it; first difference at position {k}: fed {:?}, dataset {:?}",
+                            seen.len(), expect_i.len(), seen.get(k), expect_i.get(k)
+                        );
+                    }
+                }
+                // G4: timestamps the exchange put on this backtest's fills / balances come from this
+                // backtest's own clock (its own events + elapsed wall time), never from another's progress
+                // (slack: the exchange latency plus tokio's 1 ms timer granularity)
+                if let Some((excess, b)) = &r.rec.clock_breach {
+                    if *excess > sc.latency_ms as i64 + 1 {
+                        fail!('run, "G4_timestamps_from_own_clock", j, "backtest {j} of {n_bt}: {b}");
+                    }
                 }
                 // G2: the returned summary is computed from that backtest's own fills
                 for (i, fills) in r.rec.fills.iter().enumerate() {
